@@ -439,8 +439,9 @@ class Sql:
             op = {'union': 'UNION', 'intersection': 'INTERSECT', 'difference': 'EXCEPT'}[node[3]]
             return (f'SELECT * FROM ({self.statement(node[1])}) AS "s{next(self.counter)}" {op} '
                     f'SELECT * FROM ({self.statement(node[2])}) AS "s{next(self.counter)}"')
-        if node[0] != 'query':
-            cols = ', '.join(f'"{o}"."{n}" AS "c{i}"' for i, (o, n) in enumerate(self.columns(node)))
+        if node[0] != 'query':  # a bare origin (join) used as a statement: every column under its own name where unique
+            cols = ', '.join(f'"{o}"."{n}" AS "{n}"' if self._unique(node, n) else f'"{o}"."{n}" AS "c{i}"'
+                             for i, (o, n) in enumerate(self.columns(node)))
             return f'SELECT {cols} FROM {self.source(node)}'
         _, source, select, where, groupby, having, orderby, rows = node
         if select:
